@@ -53,7 +53,7 @@ prop('C12', level='proof', modules=['Polyseed.Props.C12'], suites=[],
      technique='Lean 4 proof (byte-wise XOR algebra, all masks) + API-history correspondence with recorded KDF calls',
      assumptions=['the injected KDF is a deterministic function of its inputs'])
 prop('C18', level='proof', modules=['Polyseed.Props.C18', 'Polyseed.Props.C18Served'], suites=[],
-     api=dict(cone={'inject': 'full', 'create': 'result+ids', '*': 'ids'}, weights=dict(inject=6, roundtrip=2, crypt=1, faults=1)), extra='extra_syms_undef',
+     api=dict(cone={'inject': 'full', 'create': 'result+ids', '*': 'ids'}, weights=dict(inject=6, roundtrip=2, crypt=1, faults=1, clocks=1)), extra='extra_syms_undef',
      text='Theorems step_served (EVERY dependency call of EVERY API call names the entry of the injected table responsible for it - allocation, free, wiping, randomness, clock, KDF, NFC, NFKD - for all inputs and oracles), inject_replaces / inject_last_wins / inject_optional (libc time, malloc, free exactly when the entry is NULL) / inject_frame, create_events (alloc, clock, 19 random bytes, wipe - in this order, nothing else), create_secret (secret = the 19 bytes with the top two bits of the last dropped; injective on the 150 bits), create_junk_independent. S-api injects two distinguishable stub sets with each optional entry present/NULL (libc interposed with --wrap), overwrites and unmaps the caller struct after injection, and checks which function served every dependency call.',
      note=PROOF_NOTE + 'Modelled, not verified: dependency.c, polyseed_create. "No other source of randomness or time" is additionally checked by the undefined-symbol inventory of the objects (S-syms).',
      technique='Lean 4 proof (event theorems over all random/clock outputs) + API-history correspondence with function identities',
@@ -133,7 +133,7 @@ prop('C10', level='proof', modules=['Polyseed.Props.C10'], suites=['feat'],
      technique='Lean 4 proof (mask algebra, decide +kernel over 8x32) + exhaustive correspondence on the feature entry points',
      assumptions=['feature values held by seeds are 5-bit (proved for every constructor in C13)'])
 prop('C11', level='proof', modules=['Polyseed.Props.C11'], suites=['bday'],
-     api=dict(cone={'create': 'result', 'birthday': 'result'}, weights=dict(queries=3, roundtrip=2, storage=1, crypt=1), sessions=2),
+     api=dict(cone={'create': 'result', 'birthday': 'result'}, weights=dict(queries=3, roundtrip=2, storage=1, crypt=1, clocks=1), sessions=2),
      text='Theorems birthday_in_range (B <= t < B + 2629746 on the whole range), birthday_clamped, birthday_never_future (every t < 2^64), birthday_form (no 64-bit overflow), create_birthday, crypt/store-load preservation. birthday_encode/decode are compared with the model on all 1025 month boundaries +-1, the epoch, 0, 2^31/2^32/2^63/2^64 neighbours and random values.',
      note=PROOF_NOTE + 'Modelled, not verified: birthday.h and the clock call in polyseed_create.',
      technique='Lean 4 proof (omega over all 64-bit clock values) + boundary-exhaustive correspondence',
@@ -440,6 +440,24 @@ def broad_script(ctx, rnd):
                 script.append('free 1')
                 script.append('decode 1 %d %s' % (coin, s_.hex()))
                 script.append('free 1')
+        # phrases with a stray non-ASCII character before / inside / after a token (the accent-insensitive matcher ignores
+        # it in Spanish and French; everything else must reject it the same way on every platform), decoded with language
+        # auto-detection with and without lang_out, and explicitly
+        for li in range(Ls.n):
+            coin = rnd.randrange(2048)
+            p = spec.poly(sec, b, f, coin)
+            toks = [Ls.words(li)[c] for c in p]
+            for stray in ('\ufeff', '\u00a1', '\u65e5'):
+                for pos in (0, rnd.randrange(1, 16)):
+                    t2 = list(toks)
+                    t2[pos] = rnd.choice([stray.encode() + t2[pos], t2[pos] + stray.encode()])
+                    s_ = b' '.join(t2)
+                    script.append('decode 1 %d %s' % (coin, s_.hex()))
+                    script.append('free 1')
+                    script.append('decoden 1 %d %s' % (coin, s_.hex()))
+                    script.append('free 1')
+                    script.append('decodex 1 %d %d %s' % (coin, li, s_.hex()))
+                    script.append('free 1')
         for pw in ('pässwörd'.encode(), unicodedata.normalize('NFD', 'pässwörd').encode(), '日本語'.encode(), b'ascii'):
             script.append('crypt 0 ' + pw.hex())
             script.append('store 0')
